@@ -23,11 +23,11 @@ Bump(h, tags) == [t \in (DOMAIN h) \cup tags |->
 \* only the ghosts that need no arithmetic
 AuxS0(W) == [liqblk |-> [v \in Vs(W) |-> 0],
              upd |-> [v \in Vs(W) |-> [t \in Traders |-> IF W.eng.pos[v][t].exists THEN W.eng.pos[v][t].blk ELSE 0]],
-             roles |-> W.given]
+             roles |-> W.given, gate |-> GateInit(W)]
 AuxSNext(a, S, e, T) ==
   [liqblk |-> [v \in Vs(T) |-> IF EngOp(e, "liquidate") /\ e.res.ok /\ e.tx.a.vamm = v THEN S.blk.h ELSE a.liqblk[v]],
    upd |-> UpdNext(a.upd, S, e, T),
-   roles |-> RolesNext(a.roles, S, e, T)]
+   roles |-> RolesNext(a.roles, S, e, T), gate |-> GateNext(a.gate, S, e, T)]
 
 StructViol(S, e, T, a) ==
   CASE Only = "C08" -> V_C08(S, e, T, a)
